@@ -143,5 +143,8 @@ ASSUMPTIONS = ["__distToNode: the edge geometry carries the feature abs_curv (co
                "which edges it must return is C08's coverage theorem, not used here",
                "region preconditions: every edge position has an entry in EDGES whose geometry is a well-formed track of >= 2 numeric fixes carrying "
                "abs_curv, with a non-degenerate segment, distinct from the matched track; squared distances below 1e600; search radius > 0",
+               "the region uses the contract of mapping.__projOnTrack / proj_polyligne / proj_segment (C20), whose [vertical] obligations are the KNOWN "
+               "FINDING C20-vertical-segment: the statements about the matched point hold for edge geometries without vertical segments "
+               "(with one, the real code returns a wrong foot or raises ZeroDivisionError: known finding C10-vertical-segment)",
                "HMM decoding and the several-tracks-per-call wrapper are bounded only",
                "math.sqrt: r >= 0 and r*r == x (trusted axiom)"]
